@@ -185,7 +185,8 @@ def run (ctx, repo, mods, type_parser_classes, fallback_classes=()):
       for l, o, r, b in q.guard_facts(g, n):
         if r is None: continue
         for a_, op_, c_ in ((l, o, r), (r, q.flip(o), l)):
-          if op_ in ('<=', '<') and 'hdr_len' in norm(c_) and isinstance(a_, ast.BinOp) and 'arr[' in norm(a_): ok_ = True
+          if op_ in ('<=', '<') and 'hdr_len' in norm(c_) and isinstance(a_, ast.BinOp) and isinstance(a_.op, ast.Add) \
+             and any(isinstance(x, ast.Subscript) and not isinstance(x.slice, ast.Slice) and norm(x.slice).endswith('+ 1') for x in (a_.left, a_.right)): ok_ = True
       ctx.ob('R-DOM', po, "an option is decoded only if it ends inside the TCP header", ok_, "option end compared with self.hdr_len" if ok_ else
              "the option's end (i + its length byte) is compared with the segment length only: an option that starts in the header and ends in the payload is accepted, and re-packing the parse result needs a data offset above 15 - struct.error in hdr()",
              (tcpm, n.ast), 'D1')
